@@ -48,25 +48,57 @@ type Switch struct {
 }
 
 type Result struct {
-	Steps      uint64
-	Switches   uint64
-	Trace      []Switch
-	Hash       uint64 // hash of the (from,to,site) sequence at switch points
-	BudgetHit  bool
-	Deadlock   bool
-	Stalled    bool // PStarve: the victim was actually stalled mid-run
-	TaskSteps  []uint64
-	MapPerms   uint64 // map ranges executed under a non-canonical permutation
-	MapRanges  uint64
-	LockSpins  uint64
-	AtomicSecs uint64
+	Steps       uint64
+	Switches    uint64
+	MidSwitches uint64 // switches taken at a yield point inside library code (not at task end)
+	Trace       []Switch
+	Hash        uint64 // hash of the (from,to,site) sequence at switch points
+	BudgetHit   bool
+	Deadlock    bool
+	Stalled     bool // PStarve: the victim was actually stalled mid-run
+	TaskSteps   []uint64
+	MapPerms    uint64 // map ranges executed under a non-canonical permutation
+	MapRanges   uint64
+	LockSpins   uint64
+	AtomicSecs  uint64
 }
 
 // Abort is the panic value raised from a yield point when a budget is
 // exhausted or a deadlock is detected.
-type Abort struct{ Reason string }
+type Abort struct {
+	Reason string
+	Site   uint32 // yield site at which the budget ran out (0 if none)
+}
 
 func (a *Abort) Error() string { return "simhook abort: " + a.Reason }
+
+// SiteNames, when set by the worker from the instrumenter report, maps a
+// site id to file:line for messages.
+var SiteNames func(uint32) string
+
+func (a *Abort) Where() string {
+	if a.Site == 0 {
+		return ""
+	}
+	if SiteNames != nil {
+		return " at " + SiteNames(a.Site)
+	}
+	return " at site #" + itoa(a.Site)
+}
+
+func itoa(n uint32) string {
+	if n == 0 {
+		return "0"
+	}
+	var b [12]byte
+	i := len(b)
+	for n > 0 {
+		i--
+		b[i] = byte('0' + n%10)
+		n /= 10
+	}
+	return string(b[i:])
+}
 
 const (
 	stRunnable = 0
@@ -92,8 +124,10 @@ type Sim struct {
 	live      int
 	steps     uint64
 	switches  uint64
+	midSw     uint64
 	countdown uint64
 	atomic    int32
+	inHook    bool // an invariant hook is running: yield points reached from it are ignored
 	trace     []Switch
 	hash      uint64
 	aborted   bool
@@ -159,7 +193,7 @@ func Y(site uint32) {
 //go:norace
 func slowY(site uint32) {
 	s := sim
-	if s == nil || s.atomic > 0 {
+	if s == nil || s.atomic > 0 || s.inHook {
 		return
 	}
 	t := s.tasks[s.cur]
@@ -168,23 +202,25 @@ func slowY(site uint32) {
 	t.opSteps++
 	markSite(site)
 	if s.aborted {
-		panic(&Abort{"run aborted"})
+		panic(&Abort{"run aborted", 0})
 	}
 	if s.steps > s.cfg.RunBudget {
 		s.aborted = true
 		s.budgetHit = true
-		panic(&Abort{"run step budget exhausted"})
+		panic(&Abort{"run step budget exhausted", site})
 	}
 	if t.opSteps > s.cfg.OpBudget {
 		s.budgetHit = true
 		t.opSteps = 0
-		panic(&Abort{"operation step budget exhausted"})
+		panic(&Abort{"operation step budget exhausted", site})
 	}
 	if s.cfg.OnYield != nil {
 		s.yieldCnt++
 		if s.yieldCnt >= s.cfg.YieldEvery {
 			s.yieldCnt = 0
+			s.inHook = true
 			s.cfg.OnYield(t.id)
+			s.inHook = false
 		}
 	}
 	if s.cfg.Policy.Kind == PStarve && !s.stalled && t.id == s.cfg.Policy.Victim && t.steps >= s.cfg.Policy.VictimAt {
@@ -292,9 +328,14 @@ func (s *Sim) pick(excludeCur bool) int {
 //go:norace
 func (s *Sim) switchTo(next int, site uint32) {
 	if s.cfg.OnSwitch != nil {
+		s.inHook = true
 		s.cfg.OnSwitch(s.cur, next)
+		s.inHook = false
 	}
 	s.switches++
+	if site != 0 {
+		s.midSw++
+	}
 	if len(s.trace) < s.cfg.TraceCap {
 		s.trace = append(s.trace, Switch{s.steps, s.cur, next, site})
 	}
@@ -312,7 +353,9 @@ func (s *Sim) finish(t *task) {
 	t.state = stDone
 	s.live--
 	if s.cfg.OnSwitch != nil {
+		s.inHook = true
 		s.cfg.OnSwitch(t.id, -1)
+		s.inHook = false
 	}
 	if s.live == 0 {
 		s.mainB.wake()
@@ -425,7 +468,7 @@ func Run(cfg Config, fns []func(id int)) Result {
 	s.mainB.park()
 	sim = nil
 	s.wg.Wait()
-	r := Result{Steps: s.steps, Switches: s.switches, Trace: s.trace, Hash: s.hash,
+	r := Result{Steps: s.steps, Switches: s.switches, MidSwitches: s.midSw, Trace: s.trace, Hash: s.hash,
 		BudgetHit: s.budgetHit, Deadlock: s.deadlock, Stalled: s.stalled,
 		MapPerms: s.mapPerms, MapRanges: s.mapRanges, LockSpins: s.lockSpins, AtomicSecs: s.atomics}
 	for _, t := range s.tasks {
@@ -516,12 +559,12 @@ func yieldBlocked() {
 	t.opSteps++
 	s.lockSpins++
 	if s.aborted {
-		panic(&Abort{"run aborted"})
+		panic(&Abort{"run aborted", 0})
 	}
 	if s.steps > s.cfg.RunBudget || t.opSteps > s.cfg.OpBudget {
 		s.aborted = true
 		s.budgetHit = true
-		panic(&Abort{"step budget exhausted while waiting for a lock"})
+		panic(&Abort{"step budget exhausted while waiting for a lock", 0})
 	}
 	next := s.pick(true)
 	if next < 0 {
@@ -537,7 +580,7 @@ func yieldBlocked() {
 	if next < 0 {
 		s.aborted = true
 		s.deadlock = true
-		panic(&Abort{"deadlock: task blocked on a lock and no other task is runnable"})
+		panic(&Abort{"deadlock: task blocked on a lock and no other task is runnable", 0})
 	}
 	s.switchTo(next, 0)
 }
